@@ -122,10 +122,10 @@ type Piece struct {
 
 // Hole is a position in emitted text filled from an atom.
 type Hole struct {
-	A    *Atom
-	Tr   []string // transforms applied, in order: quoted, upper, lower, [0:1], [1:], no-newline, fmt:%d ...
-	Site    string // where it was formatted into text: "<function> :: <format> arg<i>" (position-free)
-	SitePos string // file:line of that site
+	A       *Atom
+	Tr      []string // transforms applied, in order: quoted, upper, lower, [0:1], [1:], no-newline, fmt:%d ...
+	Site    string   // where it was formatted into text: "<function> :: <format> arg<i>" (position-free)
+	SitePos string   // file:line of that site
 }
 
 // Str is an abstract string: a list of pieces. A concrete string has only Lit pieces.
@@ -497,6 +497,17 @@ func (m *Machine) strEqual(a, b Str) (Tri, string) {
 	// identical piece lists
 	if strKey(a) == strKey(b) {
 		return Yes, ""
+	}
+	// comparison with the empty string is the emptiness fact of the other side
+	if (oka && ca == "") || (okb && cb == "") {
+		other := a
+		if oka && ca == "" {
+			other = b
+		}
+		if ne, known := other.NonEmpty(); known {
+			return triOf(!ne), ""
+		}
+		return triOf(m.Decide("strempty:"+strKey(other), 2, "emptiness of a symbolic string") == 1), ""
 	}
 	// emptiness mismatch
 	if ne, known := a.NonEmpty(); known {
